@@ -31,6 +31,9 @@ def run(c):
         t = c.rundir / "rand.ndjson"
         c.drive(drv, ["gen", c.seed, c.pick(300, 3000), t])
         files.append(t)
+        t = c.rundir / "worst.ndjson"
+        c.drive(drv, ["worst", c.pick(240, 2400), t])
+        files.append(t)
         t = c.rundir / "fuzz.ndjson"
         c.drive(drv, ["fuzz", c.seed, c.pick(20000, 400000), t])
         files.append(t)
